@@ -251,6 +251,15 @@ func CoveragePlan() []Case {
 	for i := 0; i < 40; i++ {
 		p = append(p, Case{Response: i%2 == 1, Ver: ver(i / 2), Opts: Opts{}, Note: "F/random"})
 	}
+	// I. a version-discovery item (it carries protocol versions of its own, as data) in front of an
+	//    item with version-gated elements: what the header said must keep deciding
+	for _, v := range Versions {
+		for _, resp := range []bool{false, true} {
+			for _, op := range []kmip.Operation{kmip.OperationLocate, kmip.OperationQuery, kmip.OperationImport} {
+				p = append(p, Case{Response: resp, Ver: v, Opts: Opts{Fill: FillMax, Ops: []kmip.Operation{kmip.OperationDiscoverVersions, op}}, Note: "I/discover-first"})
+			}
+		}
+	}
 	plan = p
 	return p
 }
